@@ -69,6 +69,10 @@ pub enum Ev {
     Get(u64, u8),
     /// keys, variant 0..3 (multi_get, multi_get_iterator, multi_get_map_iterator)
     MGet(Vec<u64>, u8),
+    /// an iterator that is NOT drained at once: opened over the keys (variant 1 = multi_get_iterator, 2 = multi_get_map_iterator) …
+    IterOpen(Vec<u64>, u8),
+    /// … and asked for its next item some events later (the key it should be about to read, `None` when it is exhausted)
+    IterNext(Option<u64>),
     Weight,
     Stats,
     Worker,
@@ -98,6 +102,8 @@ impl Ev {
             Ev::Delete(c, k) => format!("delete {} {}", c, k),
             Ev::Get(k, _) => format!("get {}", k),
             Ev::MGet(ks, _) => format!("mget {}", if ks.is_empty() { "-".to_string() } else { ks.iter().map(|k| k.to_string()).collect::<Vec<_>>().join(",") }),
+            Ev::IterOpen(ks, _) => format!("iteropen {}", if ks.is_empty() { "-".to_string() } else { ks.iter().map(|k| k.to_string()).collect::<Vec<_>>().join(",") }),
+            Ev::IterNext(k) => format!("iternext {}", opt(k)),
             Ev::Weight => "weight".to_string(),
             Ev::Stats => "stats".to_string(),
             Ev::Worker => "worker".to_string(),
@@ -114,7 +120,7 @@ impl Ev {
     pub fn variant_note(&self) -> String {
         match self {
             Ev::Get(_, variant) => format!(" #v{}", variant),
-            Ev::MGet(_, variant) => format!(" #v{}", variant),
+            Ev::MGet(_, variant) | Ev::IterOpen(_, variant) => format!(" #v{}", variant),
             _ => String::new(),
         }
     }
@@ -138,6 +144,8 @@ impl Ev {
             &"delete" => Ev::Delete(nat(tokens[1])? as usize, nat(tokens[2])?),
             &"get" => Ev::Get(nat(tokens[1])?, variant),
             &"mget" => Ev::MGet(if tokens[1].is_empty() || tokens[1] == "-" { vec![] } else { tokens[1].split(',').map(|k| k.parse::<u64>().unwrap()).collect() }, variant),
+            &"iteropen" => Ev::IterOpen(if tokens[1].is_empty() || tokens[1] == "-" { vec![] } else { tokens[1].split(',').map(|k| k.parse::<u64>().unwrap()).collect() }, variant.max(1)),
+            &"iternext" => Ev::IterNext(if tokens[1] == "-" { None } else { Some(nat(tokens[1])?) }),
             &"weight" => Ev::Weight,
             &"stats" => Ev::Stats,
             &"worker" => Ev::Worker,
@@ -190,8 +198,13 @@ pub enum CallOut {
     Send(Result<Arc<CommandAcknowledgement>, String>),
     Value(Option<u64>),
     Values(Vec<Option<u64>>),
+    Item(Option<Option<u64>>),
     Unit,
 }
+
+/// An iterator kept open across events. It borrows the cache and its keys; both outlive it (the engine holds the `Arc`, the keys
+/// are leaked), so the borrow is stretched to `'static` by hand.
+pub type OpenIter = Arc<Mutex<Option<Box<dyn Iterator<Item = Option<u64>> + Send>>>>;
 
 type Job = Box<dyn FnOnce(&Cache) -> CallOut + Send>;
 
@@ -222,6 +235,9 @@ pub struct Engine {
     pub hung: bool,
     done_seen: Vec<bool>,
     draining_seen: bool,
+    open_iter: OpenIter,
+    /// the keys the open iterator has not yet been asked for (the harness's own count of its `next()` calls that yielded an item)
+    pub iter_keys: Option<Vec<u64>>,
 }
 
 pub const TIMEOUT: Duration = Duration::from_secs(8);
@@ -297,7 +313,7 @@ impl Engine {
         let (sample_size, buf_chan_cap, _) = Cache::verif_constants();
         let seeds = cache.verif_snapshot().sketch.seeds;
         let parked = vec![false; cfg.clients];
-        Ok(Engine { cfg, cache, clock, acks: Vec::new(), slots, threads, parked, sample_size, buf_chan_cap, ttl_entry: ttl_entry as i64, seeds, hung: false, done_seen: Vec::new(), draining_seen: false })
+        Ok(Engine { cfg, cache, clock, acks: Vec::new(), slots, threads, parked, sample_size, buf_chan_cap, ttl_entry: ttl_entry as i64, seeds, hung: false, done_seen: Vec::new(), draining_seen: false, open_iter: Arc::new(Mutex::new(None)), iter_keys: None })
     }
 
     pub fn cfg_line(&self) -> String {
@@ -368,6 +384,7 @@ impl Engine {
             }
             Progress::Done(Ok(CallOut::Unit)) => "none".to_string(),
             Progress::Done(Ok(CallOut::Value(value))) => format!("value {}", opt(&value)),
+            Progress::Done(Ok(CallOut::Item(item))) => match item { None => "iter end".to_string(), Some(value) => format!("iter {}", opt(&value)) },
             Progress::Done(Ok(CallOut::Values(values))) => format!("values {}", values.iter().map(opt).collect::<Vec<_>>().join(",")),
         }
     }
@@ -394,7 +411,8 @@ impl Engine {
             Ev::Sweep => Self::alive("sweeper"),
             Ev::Resume(c) => *c < self.cfg.clients && self.parked[*c] && self.can_resume(*c),
             Ev::Poll(h) => *h < self.acks.len(),
-            Ev::Get(..) | Ev::MGet(..) => self.free_client().is_some(),
+            Ev::Get(..) | Ev::MGet(..) | Ev::IterOpen(..) => self.free_client().is_some(),
+            Ev::IterNext(k) => self.free_client().is_some() && self.iter_keys.as_ref().map(|keys| keys.first().copied() == *k).unwrap_or(false),
             _ => true,
         };
         if !enabled { return (String::new(), "disabled".to_string()); }
@@ -445,6 +463,34 @@ impl Engine {
                                 _ => cache.multi_get_map_iterator(refs, |value| value + 1_000_000).map(|value| value.map(|value| value - 1_000_000)).collect(),
                             })
                         }));
+                        self.render_send(p)
+                    }
+                }
+            }
+            Ev::IterOpen(ks, variant) => {
+                // constructing the iterator touches nothing shared; it is built here and handed to a client thread for each `next()`
+                let cache: &'static Cache = unsafe { &*Arc::as_ptr(&self.cache) };
+                let keys: &'static [u64] = Box::leak(ks.clone().into_boxed_slice());
+                let refs: Vec<&'static u64> = keys.iter().collect();
+                let iterator: Box<dyn Iterator<Item = Option<u64>> + Send> = if variant == 2 {
+                    Box::new(cache.multi_get_map_iterator(refs, |value| value + 1_000_000).map(|value| value.map(|value| value - 1_000_000)))
+                } else { Box::new(cache.multi_get_iterator(refs)) };
+                *self.open_iter.lock().unwrap() = Some(iterator);
+                self.iter_keys = Some(ks);
+                "none".to_string()
+            }
+            Ev::IterNext(_) => {
+                let client = self.free_client();
+                match client {
+                    None => "hang no_free_client".to_string(),
+                    Some(c) => {
+                        let open = self.open_iter.clone();
+                        let p = self.call(c, Box::new(move |_cache| CallOut::Item(open.lock().unwrap().as_mut().and_then(|iterator| iterator.next()))));
+                        match &p {
+                            Progress::Done(Ok(CallOut::Item(Some(_)))) => { if let Some(keys) = self.iter_keys.as_mut() { if !keys.is_empty() { keys.remove(0); } } }
+                            Progress::Done(Ok(CallOut::Item(None))) => { if self.iter_keys.as_ref().map(|keys| keys.is_empty()).unwrap_or(false) { self.iter_keys = None; } }
+                            _ => {}
+                        }
                         self.render_send(p)
                     }
                 }
